@@ -51,6 +51,10 @@ func (P) Monitor(c *hx.CaseRun) []hx.Failure {
 			fs = append(fs, hx.Failure{Monitor: "fees_debited_equal_fees_credited", Class: "off-par-gas-price-admitted", Site: "types/transaction.go:IllegalGasLimitOrGasPrice",
 				Msg: "a transaction whose gas price is not the chain's fixed price was admitted (the sender pays gas*price, the collector is credited gas*par): " + op})
 		}
+		if r, ok := hx.Arg(toks_, "rem"); ok && r != "0" && strings.Contains(ans, "admit=ok") {
+			fs = append(fs, hx.Failure{Monitor: "amount_range_enforced", Class: "sub-unit-account-output-admitted", Site: "types/tx_utxo.go:checkTxSemantic",
+				Msg: "an account output that is not a whole number of commitment units was admitted (its commitment covers amount/unit, the remainder is credited out of nothing): " + op})
+		}
 		if _, ok := hx.Arg(toks_, "hi"); ok && (strings.Contains(ans, "admit=ok") || strings.HasPrefix(ans, "id=")) {
 			fs = append(fs, hx.Failure{Monitor: "amount_range_enforced", Class: "oversize-amount-accepted", Site: "types/tx_utxo.go:BigInt2Hash",
 				Msg: "an account-side amount of 2^64 units or more was turned into a commitment scalar (it is reduced modulo the scalar's byte width while the full amount is credited): " + op + " -> " + ans})
@@ -324,7 +328,7 @@ func (P) Generate(g *hx.Gen) {
 				case r == 15 && g.Rng.Intn(2) == 0:
 					ops = append(ops, "nonces")
 				default:
-					switch g.Rng.Intn(6) {
+					switch g.Rng.Intn(7) {
 					case 0, 1: // contract call that succeeds (storage writes, log) or reverts (c=255)
 						c := g.Rng.Intn(40)
 						if g.Rng.Intn(3) == 0 {
@@ -346,6 +350,12 @@ func (P) Generate(g *hx.Gen) {
 						if owned[w] > 0 {
 							ops = append(ops, fmt.Sprintf("ua w=%d in=%d to=%d amount=%d hi=%d claim=300000000000", w, g.Rng.Intn(owned[w]), g.Rng.Intn(3), 1+g.Rng.Intn(100000),
 								[]int{64, 65, 71, 72, 73, 80, 100}[g.Rng.Intn(7)]))
+						}
+					case 4: // an account output that is not a whole number of commitment units (the commitment covers amount/unit)
+						w := g.Rng.Intn(2)
+						if owned[w] > 0 {
+							ops = append(ops, fmt.Sprintf("ua w=%d in=%d to=%d amount=%d rem=%d", w, g.Rng.Intn(owned[w]), g.Rng.Intn(3), 1+g.Rng.Intn(100000),
+								[]int64{1, 5, 9999999999, 5000000000}[g.Rng.Intn(4)]))
 						}
 					default: // spend a whole output to an account: a transaction without any confidential output
 						w := g.Rng.Intn(2)
